@@ -7,3 +7,7 @@ mkdir -p work evidence replays
 python3 tools/extract.py || true
 cd lean
 lake build
+# pre-build every registered proof / bridge module so that the per-property checks only re-elaborate what a change of
+# /repo invalidates (a module that fails here is reported by the check that owns it, not by the set-up)
+mods=$(python3 -c "import sys; sys.path.insert(0, '../tools'); from registry import REGISTRY; print(' '.join(sorted({m for s in REGISTRY.values() for (_, m, _) in s['theorems']})))")
+lake build $mods || true
